@@ -296,6 +296,9 @@ package logqlmetric
 //@   ensures[limit] ret1 == nil && typeis[*vectorAggHeapIterator](ret0) ==> as[*vectorAggHeapIterator](ret0).limit == ite(old(expr.Parameter) == nil, -1, old(*expr.Parameter))
 
 //@ func (*vectorAggIterator).Next
+//@   logical anyKey GroupingKey
+//@   loop 0 invariant[every-group-exists] has(result, anyKey) ==> result[anyKey] != nil
+//@   loop 1 invariant[every-group-exists] has(result, anyKey) ==> result[anyKey] != nil
 //@   assume_pure i.grouper
 //@   assume_fresh i.agg
 //@   capture nx = call(i.iter.Next, 0)
@@ -451,6 +454,10 @@ package logqlmetric
 // replaces the current extreme only when it beats it. What is kept is the input sample itself
 // (labels intact), and the step's timestamp is passed on.
 //@ func (*vectorAggHeapIterator).Next
+//@   logical anyKey GroupingKey
+//@   loop 0 invariant[every-group-exists] has(result, anyKey) ==> result[anyKey] != nil && result[anyKey].heap != nil
+//@   loop 1 invariant[every-group-exists] has(result, anyKey) ==> result[anyKey] != nil && result[anyKey].heap != nil
+//@   loop 1 invariant[keys-stay-keys] rangeindex+1 <= len(sk_r0) && forall(0, len(sk_r0), func(j int) bool { return has(result, sk_r0[j]) })
 //@   assume_pure i.grouper
 //@   assume_pure i.less
 //@   capture nx = call(i.iter.Next, 0)
